@@ -11,6 +11,9 @@ from whoosh.matching import (ListMatcher, UnionMatcher, IntersectionMatcher, And
 
 NI = tiered(3, 4)      # max ids per leaf (depth 1)
 ND = tiered(8, 10)     # ids below
+NINV = tiered(2, 3)
+NDINV = tiered(5, 7)
+NC3 = tiered(1, 2)     # third submatcher of the array unions
 NI2 = tiered(2, 3)     # depth 2
 ND2 = tiered(6, 8)
 
@@ -125,12 +128,14 @@ def c01_dismax(a: List[int], b: List[int]) -> Optional[str]:
     return r
 
 
-@h(bounds="ids<=NI<ND, limit<=ND, missing set <=2 ids", funcs=F + ["whoosh.matching.wrappers.InverseMatcher"],
+@h(bounds="ids<=2<5 (thorough 3<7), limit<=5 (7), missing (deleted) set <=2 ids disjoint from the child's postings "
+          "(SegmentReader.postings already excludes deleted documents from every leaf)", funcs=F + ["whoosh.matching.wrappers.InverseMatcher"],
    examples=[dict(a=[1, 3], limit=5, miss=[0]), dict(a=[], limit=0, miss=[])])
 def c01_inverse(a: List[int], limit: int, miss: List[int]) -> Optional[str]:
     """
-    pre: asc(a, NI, ND) and 0 <= limit <= ND and asc(miss, 2, ND)
+    pre: asc(a, NINV, NDINV) and 0 <= limit <= NDINV and asc(miss, 2, NDINV)
     pre: all(x < limit for x in a)
+    pre: all(x not in miss for x in a)
     post: _ is None
     """
     missing = lambda d: d in miss
@@ -162,32 +167,6 @@ def c01_multi(a: List[int], b: List[int], off: int) -> Optional[str]:
     """
     oracle = list(a) + [x + off for x in b]
     r = both(lambda: MultiMatcher([leaf(a), leaf(b)], [0, off]), oracle)
-    tick(len(a) > 0 and len(b) > 0)
-    return r
-
-
-@h(bounds="3 submatchers ids<=NI2<ND2, partsize 1..3, doccount ND2", funcs=F + ["whoosh.matching.combo.ArrayUnionMatcher"],
-   examples=[dict(a=[1, 3], b=[0, 3], c=[5], part=2)])
-def c01_arrayunion(a: List[int], b: List[int], c: List[int], part: int) -> Optional[str]:
-    """
-    pre: asc(a, NI2, ND2) and asc(b, NI2, ND2) and asc(c, NI2, ND2) and 1 <= part <= 3
-    post: _ is None
-    """
-    oracle = o_union(o_union(a, b), c)
-    r = both(lambda: ArrayUnionMatcher([leaf(a), leaf(b), leaf(c)], ND2, partsize=part), oracle)
-    tick(len(a) > 0 and len(b) > 0)
-    return r
-
-
-@h(bounds="3 submatchers ids<=NI2<ND2, doccount ND2", funcs=F + ["whoosh.matching.combo.PreloadedUnionMatcher"],
-   examples=[dict(a=[1, 3], b=[0, 3], c=[5])])
-def c01_preloaded(a: List[int], b: List[int], c: List[int]) -> Optional[str]:
-    """
-    pre: asc(a, NI2, ND2) and asc(b, NI2, ND2) and asc(c, NI2, ND2)
-    post: _ is None
-    """
-    oracle = o_union(o_union(a, b), c)
-    r = both(lambda: PreloadedUnionMatcher([leaf(a), leaf(b), leaf(c)], ND2), oracle)
     tick(len(a) > 0 and len(b) > 0)
     return r
 
